@@ -24,6 +24,8 @@
 #include <atomic>
 #include <optional>
 #include <cstring>
+#include <openssl/ssl.h>
+#include <openssl/err.h>
 
 namespace vh {
 
@@ -75,6 +77,7 @@ struct data_action
     std::string payload;
     std::vector<std::size_t> sizes;
     bool reset = false;
+    bool truncate = false;          // TLS: close TCP without sending close-notify
     long long limit = -1;
 };
 
@@ -83,6 +86,10 @@ struct group
     std::vector<std::string> items;      // "r<hex>", "E", "P"
     std::vector<std::size_t> cuts;
     data_action act;
+    bool start_tls = false;              // T: after these replies the server starts the TLS handshake on the control connection
+    bool garbage = false;                // G: ... sends garbage instead of a ServerHello and closes
+    bool close_after = false;            // X: ... closes the control connection
+    bool bad_cert = false;               // B: the TLS handshake started by T presents a certificate of an unknown CA
 };
 
 inline bool parse_group(const std::string & s, group & g)
@@ -91,6 +98,10 @@ inline bool parse_group(const std::string & s, group & g)
     {
         if (it.empty()) continue;
         if (it[0] == 'r' || it == "E" || it == "P") g.items.push_back(it);
+        else if (it == "T") g.start_tls = true;
+        else if (it == "G") g.garbage = true;
+        else if (it == "X") g.close_after = true;
+        else if (it == "B") g.bad_cert = true;
         else if (it[0] == 'c') g.cuts = dotlist(it.substr(1));
         else if (it[0] == 'D')
         {
@@ -101,6 +112,7 @@ inline bool parse_group(const std::string & s, group & g)
                 if (!parse_payload(p[1], g.act.payload)) return false;
                 g.act.sizes = dotlist(p[2]);
                 g.act.reset = p[3] == "r";
+                g.act.truncate = p[3] == "t";
             }
             else if (p[0] == "recv" && p.size() == 3)
             {
@@ -129,6 +141,8 @@ public:
     // results of the last transfer
     std::string received; std::size_t sent = 0; bool saw_eof = false; bool connected = false; std::string err;
     std::atomic<bool> done{false};
+    // TLS on the data connection (server side)
+    SSL_CTX *tls_ctx = nullptr; bool tls = false; bool require_reuse = false; bool reused = false; bool tls_ok = false;
 
     ~data_peer() { finish(); close_listener(); }
 
@@ -174,7 +188,7 @@ public:
     void start(const data_action & act)
     {
         finish();
-        received.clear(); sent = 0; saw_eof = false; connected = false; err.clear(); done = false;
+        received.clear(); sent = 0; saw_eof = false; connected = false; err.clear(); done = false; reused = false; tls_ok = false;
         bool passive = lfd >= 0;
         worker = std::thread([this, act, passive] {
             peer_scope ps;
@@ -195,30 +209,59 @@ public:
             {
                 connected = true;
                 int one = 1; setsockopt(fd, IPPROTO_TCP, TCP_NODELAY, &one, sizeof one);
-                if (act.kind == data_action::send)
+                SSL *ssl = nullptr;
+                bool go = true;
+                if (tls && tls_ctx)
+                {
+                    ssl = SSL_new(tls_ctx);
+                    SSL_set_fd(ssl, fd);
+                    if (SSL_accept(ssl) != 1) { err = "tls-handshake-failed"; go = false; }
+                    else
+                    {
+                        tls_ok = true;
+                        reused = SSL_session_reused(ssl) == 1;
+                        if (require_reuse && !reused) { err = "session-reuse-required"; go = false; }
+                    }
+                }
+                if (go && act.kind == data_action::send)
                 {
                     std::size_t pos = 0, i = 0;
                     while (pos < act.payload.size())
                     {
                         std::size_t n = act.sizes.empty() ? act.payload.size() - pos : std::max<std::size_t>(1, act.sizes[i++ % act.sizes.size()]);
                         n = std::min(n, act.payload.size() - pos);
-                        ssize_t w = ::send(fd, act.payload.data() + pos, n, MSG_NOSIGNAL);
+                        ssize_t w = ssl ? SSL_write(ssl, act.payload.data() + pos, static_cast<int>(std::min<std::size_t>(n, 16384)))
+                                        : ::send(fd, act.payload.data() + pos, n, MSG_NOSIGNAL);
                         if (w <= 0) { err = "send-failed"; break; }
                         pos += static_cast<std::size_t>(w);
                     }
                     sent = pos;
                 }
-                else if (act.kind == data_action::recv)
+                else if (go && act.kind == data_action::recv)
                 {
                     char buf[16384];
                     for (;;)
                     {
                         if (act.limit >= 0 && static_cast<long long>(received.size()) >= act.limit) break;
-                        ssize_t r = ::recv(fd, buf, sizeof buf, 0);
-                        if (r == 0) { saw_eof = true; break; }
+                        ssize_t r = ssl ? SSL_read(ssl, buf, sizeof buf) : ::recv(fd, buf, sizeof buf, 0);
+                        if (r == 0 || (ssl && r < 0 && SSL_get_error(ssl, static_cast<int>(r)) == SSL_ERROR_ZERO_RETURN)) { saw_eof = true; break; }
                         if (r < 0) { err = "recv-failed"; break; }
                         received.append(buf, static_cast<std::size_t>(r));
                     }
+                }
+                if (ssl)
+                {
+                    if (go && !act.truncate && !act.reset)
+                    {
+                        // send our close-notify and wait for the client's (Asio's synchronous shutdown waits for ours)
+                        int r = SSL_shutdown(ssl);
+                        if (r == 0)
+                        {
+                            pollfd p{fd, POLLIN, 0};
+                            if (::poll(&p, 1, 3000) > 0) SSL_shutdown(ssl);
+                        }
+                    }
+                    SSL_free(ssl);
                 }
                 if (act.reset) { linger lg{1, 0}; setsockopt(fd, SOL_SOCKET, SO_LINGER, &lg, sizeof lg); }
                 ::close(fd);
@@ -242,6 +285,7 @@ public:
     std::vector<std::string> resolved;                 // the groups actually played (placeholders resolved), for the driver
     std::vector<std::string> generated;                // raw replies generated during the current operation
     bool transfer_started = false;
+    group last_group;                                  // the group played for the last command (flags for the transport)
 
     void begin_op(const std::vector<group> & groups) { script = groups; next = 0; commands.clear(); generated.clear(); resolved.clear(); transfer_started = false; }
 
@@ -265,6 +309,7 @@ public:
         group g;
         if (next < script.size()) g = script[next++];
         else g.items.push_back("r" + hex("500 script exhausted\r\n").substr(1));
+        last_group = g;
         std::string bytes, res;
         for (const std::string & it : g.items)
         {
